@@ -148,7 +148,12 @@ def main(argv=None):
     for fn, n in sorted(agg['reach'].items()):
         if n == 0:
             inconclusive.append('anchored function never entered: ' + fn)
-    for name, minimum in meta.get('quotas', {}).get(args.tier, {}).items():
+    # class quotas: calibrated on the quick tier (seeds 0-6); the thorough tier explores >= 10x more, it must
+    # reach at least 5x the quick quota of every class
+    quotas = dict(meta.get('quotas', {}).get('quick', {}))
+    if args.tier == 'thorough':
+        quotas = {k: 5 * v for k, v in quotas.items()}
+    for name, minimum in quotas.items():
         if agg['counters'].get(name, 0) < minimum:
             inconclusive.append('class quota not met: %s=%d < %d' % (name, agg['counters'].get(name, 0), minimum))
     if len(agg['nontrivial']) < 2 and not inconclusive:
